@@ -97,18 +97,41 @@ def run_unit(ctx, unit_name, targets=None, search_map=None, only_labels=None, ti
     only_labels: if given, only failures attributed to these labels (or to no label) count for this
                  property (a unit may serve several properties)."""
     os.makedirs(VBUILD, exist_ok=True)
-    u = V.Unit(unit_name)
-    try:
-        text = u.assemble()
-    except LostAnchor as e:
-        ctx.undecide('lost anchor in unit %s: %s' % (unit_name, e))
-        return None
-    except V.Unsupported as e:
-        ctx.undecide('unsupported construct in unit %s: %s' % (unit_name, e))
-        return None
+    # A body anchor of a rewrite rule that is no longer found (the function was edited) leaves THAT function
+    # unverified (external_body, contract assumed for its callers); the paired search then looks for a witness.
+    pre_forced = {}
+    while True:
+        u = V.Unit(unit_name)
+        try:
+            text = u.assemble(force_external=set(pre_forced))
+            break
+        except LostAnchor as e:
+            lab = getattr(e, 'label', None)
+            if lab is None or lab in pre_forced or len(pre_forced) >= 4:
+                ctx.undecide('lost anchor in unit %s: %s' % (unit_name, e))
+                return None
+            pre_forced[lab] = str(e)
+        except V.Unsupported as e:
+            ctx.undecide('unsupported construct in unit %s: %s' % (unit_name, e))
+            return None
     path = os.path.join(VBUILD, unit_name + '.rs')
     with open(path, 'w') as f:
         f.write(text)
+    for lab, why in sorted(pre_forced.items()):
+        if only_labels is not None and lab not in only_labels:
+            continue
+        s_ = Searcher(search_crate or unit_name, ctx)
+        w = None
+        for tgt in (search_map or {}).get(lab, [lab]):
+            w = s_.search(tgt)
+            if w:
+                break
+        if w:
+            ctx.violation('%s|%s|unverifiable+witness' % (unit_name, lab),
+                          '%s: body changed beyond a rewrite-rule anchor (%s); paired search found a failing input' % (lab, why[:200]),
+                          why, witness=w, replay_cmd=s_.replay_cmd(w), engine='verus:' + unit_name + '+search')
+        else:
+            ctx.undecide('lost anchor in unit %s: %s; function left unverified, paired search found no failing input' % (unit_name, why))
     res = V.run_verus(path, timeout=timeout)
     ctx.cmds.append('verus %s --output-json --time' % os.path.relpath(path, VERIF))
     if res.get('timeout'):
@@ -144,7 +167,7 @@ def run_unit(ctx, unit_name, targets=None, search_map=None, only_labels=None, ti
         if ok and forced:
             try:
                 u2 = V.Unit(unit_name)
-                text2 = u2.assemble(force_external=forced)
+                text2 = u2.assemble(force_external=forced | set(pre_forced))
                 with open(path, 'w') as f:
                     f.write(text2)
                 res2 = V.run_verus(path, timeout=timeout)
